@@ -35,7 +35,20 @@ M = {
     "noreg_check": ("src/pdsh/mod.c", "        if (!S_ISREG(st.st_mode))\n            continue;", ""),
     "forced_any_type": ("src/pdsh/mod.c", "    if (strcmp (mod->pmod->type, \"misc\") != 0)\n        return 0;", ""),
     "owner_is_me_only": ("src/pdsh/mod.c", "    if (  (st->st_uid != 0) && (st->st_uid != getuid())\n       && (st->st_uid != alt_uid))", "    if (  (st->st_uid != 0) && (st->st_uid != getuid()))"),
+    # ---- C17, classes added in round 2
+    "cmp_notype": ("src/pdsh/mod.c", "    return strcmp (x->pmod->type, y->pmod->type);", "    return 0;"),
+    "dup_bigger_file": ("src/pdsh/mod.c", "                && strcmp (mod->filename, prev->filename) < 0))", "                && strcmp (mod->filename, prev->filename) > 0))"),
+    "match_name_only": ("src/pdsh/mod.c", "    if (  (strcmp(m->pmod->type, type) == 0)\n       && (strcmp(m->pmod->name, name) == 0) )", "    if (  (type != NULL)\n       && (strcmp(m->pmod->name, name) == 0) )"),
+    "isloaded_off": ("src/pdsh/mod.c", "    if (list_find_first(module_list, (ListFindF) _cmp_filenames, filename))\n        return 1;", ""),
+    "empty_ok": ("src/pdsh/mod.c", "    if (count == 0)\n        errx(\"%p: no modules found\\n\");", ""),
+    "opendir_ignored": ("src/pdsh/mod.c", "    if (!(dirp = opendir(dir)))\n        return -1;", "    if (!(dirp = opendir(dir)))\n        return 0;"),
+    "gw_refused": ("src/pdsh/mod.c", "    if ((st->st_mode & S_IWOTH) && !(st->st_mode & S_ISVTX))", "    if ((st->st_mode & (S_IWOTH|S_IWGRP)) && !(st->st_mode & S_ISVTX))"),
+    "file_sticky_excuses": ("src/pdsh/mod.c", "        if (st.st_mode & S_IWOTH) {", "        if ((st.st_mode & S_IWOTH) && !(st.st_mode & S_ISVTX)) {"),
+    "root_dir_unchecked": ("src/pdsh/mod.c", "    } while ( !((st.st_ino == rootino) && (st.st_dev == rootdev)) );", "        if (stat(dirbuf, &st) == 0 && (st.st_ino == rootino) && (st.st_dev == rootdev)) break;\n    } while (1);"),
+    "misc_first_only": ("src/pdsh/mod.c", "    list_for_each (l, (ListForF) _mod_initialize_by_name, m);", "    if (list_count (l) > 0) _mod_initialize_by_name (list_peek (l), m);"),
     # ---- C09
+    "user_len_unchecked": ("src/pdsh/opt.c", "            if (user && strlen (user) > login_name_max_len ())", "            if (0)"),
+    "user_len_off_by_one": ("src/pdsh/opt.c", "    if (strlen (src) > maxlen)", "    if (strlen (src) >= maxlen)"),
     "fmt_u_h": ("src/common/pipecmd.c", "                case 'u':\n                    xstrcat (&str, e->username);", "                case 'u':\n                    xstrcat (&str, e->target);"),
     "fmt_pct_drop": ("src/common/pipecmd.c", "                case '%':\n                    xstrcatchar (&str, '%');\n                    break;", "                case '%':\n                    break;"),
     "fmt_unknown_drop": ("src/common/pipecmd.c", "                default:\n                    xstrcatchar (&str, '%');\n                    xstrcatchar (&str, *p);", "                default:\n                    xstrcatchar (&str, *p);"),
@@ -82,14 +95,19 @@ def main():
         dst = "/var/tmp/mutrepo_%s_%d" % (prop, os.getpid())
         shutil.rmtree(dst, ignore_errors=True)
         subprocess.run(["cp", "-a", "/repo", dst], check=True)
+        skip = False
         for part in name.split("+"):
             path, old, new = M[part]
             f = os.path.join(dst, path)
             s = open(f).read()
             if s.count(old) != 1:
                 print("MUTANT %s: pattern occurs %d times" % (part, s.count(old)))
-                sys.exit(2)
+                skip = True
+                break
             open(f, "w").write(s.replace(old, new))
+        if skip:
+            shutil.rmtree(dst, ignore_errors=True)
+            continue
         env = dict(os.environ, VERIF_REPO=dst)
         p = subprocess.run(["./check.py", prop, "--tier", "quick"], cwd=W, env=env, stdout=subprocess.PIPE,
                            stderr=subprocess.STDOUT)
